@@ -236,6 +236,31 @@ def check(ctx, replay=None):
                             viol("the target's output is unreadable: %s" % e, res)
                 if use_strace and res["strace"] and os.path.exists(res["strace"]):
                     traces.append((eff_fault, strace_events(res["strace"], os.path.basename(res["target"]), eff_fault), res))
+    # a policy of several groups that together exceed the kernel's 4096 instructions (every group well inside it), with an exception in
+    # front of a rule (allow afs_syscall if arg0 == 1 ... errno afs_syscall): the kernel refuses the program - or, whatever the command
+    # does to make it fit, a target that runs observes the policy's decisions (first matching group)
+    big = "seccomp:\n  default_action: allow\n  syscalls:\n  - action: allow\n    names_with_args:\n    - name: afs_syscall\n      arguments:\n      - argument: 0\n        operation: Equal\n        value: 1\n"
+    for g in range(3):
+        big += "  - action: errno\n    names_with_args:\n" + "".join(
+            "    - name: putpmsg\n      arguments:\n      - argument: %d\n        operation: Equal\n        value: %d\n" % (g, 100 + i) for i in range(450))
+    big += "  - action: errno\n    names:\n    - afs_syscall\n"
+    for k in range(2):
+        idx += 1
+        res = run_sandbox(d, scratch, "none", 9000 + 3 * k, policy_text=big, probes=["183:1", "183:2", "183:0", "184"])   # (9000, 9003: native domain)
+        if res is None:
+            ctx.skip("sandbox run timed out (oversize policy)")
+            continue
+        ctx.cov["evaluations"] += 1
+        ctx.cov["oversize_policies_in_several_groups"] = ctx.cov.get("oversize_policies_in_several_groups", 0) + 1
+        if res["marker"]:
+            try:
+                got = [p["errno"] for p in json.loads(res["stdout"].strip().splitlines()[-1])["probes"]]
+            except Exception:
+                got = None
+            if got != [38, 1, 1, 38]:
+                viol("a policy beyond the kernel's program size: the target was run and does not observe the policy's decisions (afs_syscall(1), afs_syscall(2), afs_syscall(0), tuxcall: errno %s, expected [38, 1, 1, 38])" % got, res)
+        elif res["rc"] == 0:
+            viol("a policy beyond the kernel's program size: exit status 0 without running the target", res)
     # "the file is missing / cannot be read", realised in more ways than a missing name: the policy path is a directory, a file whose
     # read fails (EIO from /proc/self/mem), an empty file, a path below a file (ENOTDIR), a dangling symbolic link
     # (a usable policy named like the command's default lies next to the sandbox binary, as after an in-place build: a missing file of
